@@ -74,3 +74,6 @@ contract('instantiate_return_type',
          returns='ref:ReturnType', modifies=['alloc'],
          ensures=['is_fresh(result)', "isinstance(result.type2, str) == isinstance(return_type.type2, str)",
                   "implies(isinstance(result.type2, str), result.type2 == '')", 'result.parent is None'])
+contract('Enum.cpp_typename', returns='ref:Typename', modifies=['alloc'],
+         ensures=['is_fresh(result)', 'result.name == old(self.name)', 'result.namespaces == old(ns_chain(self.parent))',
+                  'len(result.instantiations) == 0'])
